@@ -25,6 +25,9 @@ pub enum Op {
 pub enum Criterion {
     Facing { dir: P3, angle: f64 },
     NearMesh { all_points: bool, dist: f64, planar: Option<f64>, angle: Option<f64> },
+    /// facing the direction of the (unnormalised, rescaled, possibly reversed) normal of one of the mesh's own faces:
+    /// exactly parallel to that face's normal
+    FacingFace { face: u16, len: f64, reverse: bool, angle: f64 },
 }
 
 #[derive(Clone, Debug, Serialize, Deserialize)]
@@ -55,6 +58,7 @@ fn criterion() -> BoxedStrategy<Criterion> {
         // the direction is any non-zero vector, not necessarily of unit length: only its direction may matter
         2 => (unit3(), prop_oneof![1 => Just(1.0), 1 => logu(-3.0, 3.0)], unif(0.05, PI)).prop_map(|(d, l, angle)| Criterion::Facing { dir: [d[0] * l, d[1] * l, d[2] * l], angle }),
         5 => (any::<bool>(), logu(-1.3, 0.5), prop::option::of(logu(-1.5, 0.3)), prop::option::of(unif(0.05, 2.0))).prop_map(|(all_points, dist, planar, angle)| Criterion::NearMesh { all_points, dist, planar, angle }),
+        1 => (any::<u16>(), prop_oneof![1 => Just(1.0), 1 => logu(-3.0, 3.0)], any::<bool>(), unif(0.05, PI)).prop_map(|(face, len, reverse, angle)| Criterion::FacingFace { face, len, reverse, angle }),
     ]
     .boxed()
 }
@@ -63,13 +67,13 @@ impl Property for C14 {
     type Case = Case;
     const ID: &'static str = "C14";
     fn rule() -> &'static str {
-        "a case is a history: a mesh (grids with creases/waves, L-shapes, tubes, fans, boxes, prisms, icospheres; adjacent faces share vertices but differ in normal), a reference mesh posed nearby (offset copies, tilted planes, partial overlaps), a quarter of the meshes carrying 1-3 vertices that no face references, a fifth carrying 1-3 zero-area faces (a repeated vertex index), a starting selection (none / all / arbitrary index set) and 1-5 steps of (facing | near-mesh with distance, optional planar and optional angle tolerance, all-vertices or any-vertex) x (Add | Remove | Keep). Model: each face's predicate is evaluated from scratch by the harness (own closest-point scan; three-valued with a 1e-9 don't-care band) and combined by set union / difference / intersection; the library result is compared after every step and recomputed 6 times (hash order). Non-trivial: >=2 steps, at least one near-mesh step with an angle tolerance, and the selection changes in >=2 steps. Distinct = distinct canonical JSON."
+        "a case is a history: a mesh (grids with creases/waves, L-shapes, tubes, fans, boxes, prisms, icospheres; adjacent faces share vertices but differ in normal), a reference mesh posed nearby (offset copies, tilted planes, partial overlaps), a quarter of the meshes carrying 1-3 vertices that no face references, a fifth carrying 1-3 zero-area faces (a repeated vertex index), a starting selection (none / all / arbitrary index set) and 1-5 steps of (facing a free direction or exactly the normal direction of one of the mesh's own faces | near-mesh with distance, optional planar and optional angle tolerance, all-vertices or any-vertex) x (Add | Remove | Keep). Model: each face's predicate is evaluated from scratch by the harness (own closest-point scan; three-valued with a 1e-9 don't-care band) and combined by set union / difference / intersection; the library result is compared after every step and recomputed 6 times (hash order). Non-trivial: >=2 steps, at least one near-mesh step with an angle tolerance, and the selection changes in >=2 steps. Distinct = distinct canonical JSON."
     }
     fn cases(t: Tier) -> u32 {
         t.pick(240_000, 1_000_000)
     }
     fn expected_labels() -> Vec<&'static str> {
-        vec!["start_none", "start_all", "start_indices", "facing", "near", "near_angle", "near_planar", "all_points", "any_point", "add", "remove", "keep", "create_mesh", "changed>=2", "unreferenced_vertices", "zero_area_faces"]
+        vec!["start_none", "start_all", "start_indices", "facing", "near", "near_angle", "near_planar", "all_points", "any_point", "add", "remove", "keep", "create_mesh", "changed>=2", "unreferenced_vertices", "zero_area_faces", "facing_own_face_normal"]
     }
     fn strategy(t: Tier) -> BoxedStrategy<Case> {
         let gmax = t.pick(6, 10);
@@ -125,6 +129,7 @@ fn predicate(c: &Criterion, msoup: &Soup, rsoup: &Soup, scale: f64) -> Vec<Tri> 
     let band = 1e-9 * scale;
     let nf = msoup.f.len();
     match c {
+        Criterion::FacingFace { .. } => unreachable!("resolved to Facing before evaluation"),
         Criterion::Facing { dir, angle } => (0..nf)
             .map(|i| {
                 let (a, b, cc) = msoup.tri(i);
@@ -263,11 +268,28 @@ fn check(case: &Case) -> Verdict {
     // model: membership per face, with an "unknown" set for faces decided inside a don't-care band
     let mut model = start_set.clone();
     let mut unknown: BTreeSet<usize> = BTreeSet::new();
-    let preds: Vec<Vec<Tri>> = case.steps.iter().map(|(c, _)| predicate(c, &msoup, &rsoup, scale)).collect();
+    // criteria that refer to a face of the mesh are resolved to a plain direction
+    let steps: Vec<(Criterion, Op)> = case
+        .steps
+        .iter()
+        .map(|(c, op)| match c {
+            Criterion::FacingFace { face, len, reverse, angle } => {
+                let (a, b, cc) = msoup.tri(idx(*face, nf));
+                let n = (b - a).cross(&(cc - a)) * (*len * if *reverse { -1.0 } else { 1.0 });
+                (Criterion::Facing { dir: [n.x, n.y, n.z], angle: *angle }, *op)
+            }
+            other => (other.clone(), *op),
+        })
+        .collect();
+    if steps.iter().any(|(c, _)| matches!(c, Criterion::Facing { dir, .. } if !(dir[0] * dir[0] + dir[1] * dir[1] + dir[2] * dir[2] > 0.0))) {
+        return Verdict::Discard("facing direction of zero length");
+    }
+    cx.label_if(case.steps.iter().any(|(c, _)| matches!(c, Criterion::FacingFace { .. })), "facing_own_face_normal");
+    let preds: Vec<Vec<Tri>> = steps.iter().map(|(c, _)| predicate(c, &msoup, &rsoup, scale)).collect();
     let mut changed_steps = 0;
     let mut has_near_angle = false;
     let mut models: Vec<(BTreeSet<usize>, BTreeSet<usize>)> = vec![];
-    for (k, (c, op)) in case.steps.iter().enumerate() {
+    for (k, (c, op)) in steps.iter().enumerate() {
         let before = model.clone();
         for i in 0..nf {
             if unknown.contains(&i) {
@@ -301,7 +323,7 @@ fn check(case: &Case) -> Verdict {
             changed_steps += 1;
         }
         match c {
-            Criterion::Facing { .. } => cx.label("facing"),
+            Criterion::Facing { .. } | Criterion::FacingFace { .. } => cx.label("facing"),
             Criterion::NearMesh { all_points, planar, angle, .. } => {
                 cx.label("near");
                 cx.label(if *all_points { "all_points" } else { "any_point" });
@@ -321,18 +343,19 @@ fn check(case: &Case) -> Verdict {
     }
     fn apply_fn<'a>(f: engeom::geom3::mesh::filtering::TriangleFilter<'a>, reference: &engeom::Mesh, c: &Criterion, op: Op) -> engeom::geom3::mesh::filtering::TriangleFilter<'a> {
         match c {
+            Criterion::FacingFace { .. } => unreachable!("resolved to Facing before evaluation"),
             Criterion::Facing { dir, angle } => f.facing(&Vector3::new(dir[0], dir[1], dir[2]), *angle, to_selectop(op)),
             Criterion::NearMesh { all_points, dist, planar, angle } => f.near_mesh(reference, *all_points, *dist, *planar, *angle, to_selectop(op)),
         }
     }
     let reference_ref = &reference;
     let apply = |f, c: &Criterion, op: Op| apply_fn(f, reference_ref, c, op);
-    let describe = |k: usize| format!("step {k}: {:?}", case.steps[k]);
+    let describe = |k: usize| format!("step {k}: {:?}", steps[k]);
     let mut first_final: Option<BTreeSet<usize>> = None;
     for rep in 0..REPEATS {
         // (a) full chain; (b) step by step through re-selection, compared with the model after every step
         let mut f = mesh.face_select(start_sel());
-        for (c, op) in &case.steps {
+        for (c, op) in &steps {
             f = match guarded(|| apply(f, c, *op)) {
                 Ok(f) => f,
                 Err(m) => return Verdict::fail("C14/filter/panic", m),
@@ -340,7 +363,7 @@ fn check(case: &Case) -> Verdict {
         }
         let chain: BTreeSet<usize> = f.collect().into_iter().collect();
         let mut cur: BTreeSet<usize> = start_set.clone();
-        for (k, (c, op)) in case.steps.iter().enumerate() {
+        for (k, (c, op)) in steps.iter().enumerate() {
             let f = mesh.face_select(Selection::Indices(cur.iter().cloned().collect()));
             let got: Vec<usize> = apply(f, c, *op).collect();
             let gs: BTreeSet<usize> = got.iter().cloned().collect();
@@ -353,8 +376,8 @@ fn check(case: &Case) -> Verdict {
                 }
                 let (exp, g) = (m.contains(&i), gs.contains(&i));
                 if exp != g {
-                    let kind = match (&case.steps[k].0, case.steps[k].1) {
-                        (Criterion::Facing { .. }, _) => "facing",
+                    let kind = match (&steps[k].0, steps[k].1) {
+                        (Criterion::Facing { .. }, _) | (Criterion::FacingFace { .. }, _) => "facing",
                         (Criterion::NearMesh { angle: Some(_), .. }, _) => "near_mesh_with_angle",
                         (Criterion::NearMesh { .. }, _) => "near_mesh",
                     };
@@ -380,7 +403,7 @@ fn check(case: &Case) -> Verdict {
     // mesh built from the final selection
     let final_sel: Vec<usize> = {
         let mut f = mesh.face_select(start_sel());
-        for (c, op) in &case.steps {
+        for (c, op) in &steps {
             f = apply(f, c, *op);
         }
         f.collect()
@@ -417,7 +440,7 @@ fn check(case: &Case) -> Verdict {
 
         // create_mesh() on the filter gives the same triangles as a set
         let mut f = mesh.face_select(start_sel());
-        for (c, op) in &case.steps {
+        for (c, op) in &steps {
             f = apply(f, c, *op);
         }
         let cm = f.create_mesh();
@@ -440,7 +463,7 @@ fn check(case: &Case) -> Verdict {
         ensure!(a == b, "C14/create_mesh/triangles", "create_mesh() triangles differ from create_from_indices(collect())");
     }
     cx.label_if(changed_steps >= 2, "changed>=2");
-    if case.steps.len() >= 2 && has_near_angle && changed_steps >= 2 {
+    if steps.len() >= 2 && has_near_angle && changed_steps >= 2 {
         cx.nontrivial();
     }
     cx.pass()
